@@ -439,7 +439,8 @@ function genPlain(rng, ctx, depth) {
     }
     case 'block': return { t: 'block', children: depth > 0 ? genNodes(rng, ctx, depth - 1, 3) : [] }
     case 'tref': {
-      const name = rng.pick(ctx.defNames)
+      // (sometimes a name no template has: nothing is rendered, also when Object.prototype has a member of that name)
+      const name = rng.bool(0.08) ? rng.pick(['nosuch', 'toString', 'constructor', '__proto__', 'valueOf', 'hasOwnProperty']) : rng.pick(ctx.defNames)
       const is = rng.bool(0.7) ? sv(name) : ev(rng.bool(0.5) ? X.str(name) : X.cond(ctx.genExpr(rng, 1), X.str(name), X.str(rng.pick(ctx.defNames))))
       const fields = []
       const k = rng.int(4)
